@@ -21,6 +21,10 @@ pub struct FaultCase {
     pub enospc: bool,
     /// if set, only this eligible-call index is exercised (used by shrunk replays)
     pub only_k: Option<u64>,
+    /// operations executed (without faults) in an earlier session of the same store: the faulty
+    /// session then continues existing segments / a snapshot instead of a fresh directory
+    #[serde(default)]
+    pub pre_ops: Vec<Step>,
 }
 
 /// possible values of a key: None = absent
@@ -175,7 +179,11 @@ fn judge<K: HKey>(case: &FaultCase, run: &RunOut, db: &std::path::Path, k: u64, 
         fail!(sigsite("worker-died"), "k={k} ({site}): worker exit code {:?} after {} ops", run.code, run.out.ops.len());
     }
     // 2. walk the results with the uncertainty model
-    let mut m = UModel::<K> { certain: BTreeMap::new(), uncertain: BTreeMap::new() };
+    let mut init: crate::e2::Model<K> = BTreeMap::new();
+    for op in &case.pre_ops {
+        init = crate::e2::apply_step(&init, &pool, op);
+    }
+    let mut m = UModel::<K> { certain: init, uncertain: BTreeMap::new() };
     let mut later_ops = 0;
     for r in &run.out.ops {
         let op = &case.ops[r.i];
@@ -308,11 +316,22 @@ pub fn run_fault<K: HKey>(case: &FaultCase, is_known: &(dyn Fn(&str) -> bool + S
     let work = scratch.path.join("work");
     std::fs::create_dir_all(&work).expect("harness: mkdir work");
     let mut meta = CaseMeta::default();
-    let case_hash = hash_json(&(&case.cfg, &case.ops, case.enospc));
+    let case_hash = hash_json(&(&case.cfg, &case.ops, case.enospc, &case.pre_ops));
     let script = Script { cfg: case.cfg.clone(), asyn: case.cfg.asyn, cleanup: false, ops: case.ops.clone(), dump: true, pre_create: false };
+    // earlier fault-free session (template directory, copied for every fault position)
+    let template = scratch.path.join("template");
+    std::fs::create_dir_all(&template).expect("harness: mkdir");
+    if !case.pre_ops.is_empty() {
+        let pre = Script { cfg: case.cfg.clone(), asyn: case.cfg.asyn, cleanup: false, ops: case.pre_ops.clone(), dump: false, pre_create: false };
+        let r = run_worker(&template, &work, "pre", &pre, ShimMode::Trace, Duration::from_secs(60));
+        if r.timed_out || r.code != Some(0) || r.out.ops.iter().any(|o| o.status != "ok") {
+            harness_exit(&format!("fault check: the fault-free first session failed: code {:?}", r.code));
+        }
+        meta.class("prepopulated_store");
+    }
     // dry run: number of eligible calls
     let db0 = scratch.path.join("db0");
-    std::fs::create_dir_all(&db0).expect("harness: mkdir");
+    copy_tree(&template, &db0);
     let dry = run_worker(&db0, &work, "dry", &script, ShimMode::Trace, Duration::from_secs(60));
     if dry.timed_out || dry.code != Some(0) {
         harness_exit(&format!("fault dry run failed: code {:?} timed_out {}", dry.code, dry.timed_out));
@@ -327,14 +346,14 @@ pub fn run_fault<K: HKey>(case: &FaultCase, is_known: &(dyn Fn(&str) -> bool + S
     for k in ks {
         let db = scratch.path.join("db");
         let _ = std::fs::remove_dir_all(&db);
-        std::fs::create_dir_all(&db).expect("harness: mkdir");
+        copy_tree(&template, &db);
         let mut run = run_worker(&db, &work, "f", &script, ShimMode::FailAt { k, errno }, Duration::from_secs(20));
         if run.timed_out {
             // confirm twice more before calling it a hang
             let mut timeouts = 1;
             for _ in 0..2 {
                 let _ = std::fs::remove_dir_all(&db);
-                std::fs::create_dir_all(&db).expect("harness: mkdir");
+                copy_tree(&template, &db);
                 run = run_worker(&db, &work, "f", &script, ShimMode::FailAt { k, errno }, Duration::from_secs(20));
                 if run.timed_out {
                     timeouts += 1;
